@@ -29,10 +29,21 @@ def run_scenarios(ctx):
                 for _ in range(rng.randint(0, 3)):
                     w.edit()
                 t = os.path.join(w.base, 'trace-%d.txt' % r)
-                res = w.backup(advance=rng.choice([5, hist.DAY]), shim_env={'TRACE': t, 'WATCH': w.root})
+                adv = rng.choice([5, hist.DAY])
+                env = {'TRACE': t, 'WATCH': w.root}
+                fault = None
+                if rng.random() < 0.35:
+                    # a flush that fails: the run must not go on to rename / report success / delete
+                    tmp = os.path.join(w.root, sorted(os.listdir(w.root))[-1] if os.listdir(w.root) else store.group_name(w.now + adv), '.' + store.backup_name(w.now + adv))
+                    grp_new = os.path.join(w.root, store.group_name(w.now + adv))
+                    fault = rng.choice(['fsync@%s/data.tar.zst' % tmp, 'fsync@%s/metadata.zst' % tmp, 'fsyncdir@%s' % tmp, 'fsyncdir@%s' % os.path.dirname(tmp),
+                                        'fsync@%s/.%s/data.tar.zst' % (grp_new, store.backup_name(w.now + adv)), 'fsyncdir@%s' % grp_new]) + '=' + rng.choice(['EIO', 'ENOSPC'])
+                    env['FAULT'] = fault
+                res = w.backup(advance=adv, shim_env=env)
                 recs = tr.parse(t, w.root)
                 ops, failed = tr.canonical(recs, w.root)
-                out.append({'scenario': i, 'run': r, 'rc': res.rc, 'ops': ops, 'failed': failed, 'errors': res.errors()[:3]})
+                out.append({'scenario': i, 'run': r, 'rc': res.rc, 'ops': ops, 'failed': failed, 'errors': res.errors()[:3], 'fault': fault,
+                            'fault_hit': any(f[0] in ('fsync', 'fsyncdir') for f in failed)})
         finally:
             w.cleanup()
     return out
@@ -49,7 +60,7 @@ def check(ctx):
     store.ensure_shim()
     ctx.scratch_dir()
     runs = run_scenarios(ctx)
-    good = [r for r in runs if r['rc'] == 0 or any(o[0] == 'rename' for o in r['ops'])]
+    good = [r for r in runs if not r.get('fault_hit') and r['rc'] == 0]
     # (a) the monitors on the real traces
     verdicts = core.run_lines(core.model_exe(), [core.req('tracecheck', {'ops': r['ops']}) for r in runs])
     # (b) the real trace is an instance of runOps
@@ -74,6 +85,10 @@ def check(ctx):
                           {'case': {'ops': r['ops'], 'rc': r['rc']}, 'verdict': v})
         if not published and r['rc'] == 0:
             ctx.violation('property', 'exit status 0 without a rename', {'case': r})
+        if r.get('fault_hit') and not v['orderOk']:
+            rejected += 1
+            ctx.violation('property', 'after a failed flush (%s) the run still renamed, reported success or deleted an older group' % r['fault'],
+                          {'case': {'ops': r['ops'], 'rc': r['rc'], 'fault': r['fault'], 'failed': r['failed']}, 'verdict': v})
     nrot = sum(1 for s in scen if s and s['old_groups'])
     nab = sum(1 for s in scen if s and s['abandoned'])
     ctx.coverage.update({
@@ -83,7 +98,7 @@ def check(ctx):
                 'non-trivial = a run that appends to a group, removes abandoned temporaries or removes old groups; distinct by derived scenario',
         'samples': [scen[0]] if scen else [],
         'correspondence': st, 'traces_validated_against_impl': len(good), 'runs_with_old_group_removal': nrot, 'runs_with_abandoned_temporaries': nab,
-        'monitor_rejections': rejected, 'disagreements_checked': st['cases'],
+        'monitor_rejections': rejected, 'disagreements_checked': st['cases'], 'runs_with_a_failed_flush': sum(1 for r in runs if r.get('fault_hit')),
     })
     ctx.assumptions += ['file data persists only by fsync of the file, directory entries only by fsync of the directory (the property\'s model); creation of a new group directory in the root is assumed persisted',
                         'no real power loss is staged: the replay of a rejected trace is the trace plus the model\'s recovered state',
